@@ -125,6 +125,27 @@ def _is_zero(it, nd, a, k):
     return (a[0] == 0) if isinstance(a[0], (int, float)) else False
 
 
+def _tuple_valued_child(model, n, kinds):
+    """a child field that the node class itself tests for being a tuple
+    (`isinstance(self.index, tuple)`): it may hold a tuple of children"""
+    for k_ in model.mro(n.cls):
+        if not isinstance(k_, ClassInfo):
+            continue
+        for mem in k_.members.values():
+            if mem.kind != "func":
+                continue
+            for c in ast.walk(mem.node):
+                if isinstance(c, ast.Call) and isinstance(c.func, ast.Name) \
+                        and c.func.id == "isinstance" and len(c.args) == 2 \
+                        and isinstance(c.args[0], ast.Attribute) \
+                        and isinstance(c.args[0].value, ast.Name) \
+                        and c.args[0].value.id == "self" \
+                        and kinds.get(c.args[0].attr) == CHILD \
+                        and "tuple" in ast.unparse(c.args[1]):
+                    return c.args[0].attr
+    return None
+
+
 def judge(model, mapper: ClassInfo, n, fn, kinds, allow_zero_result=False,
           extra_calls=None):
     """-> (witnesses, n_cases)"""
@@ -158,6 +179,10 @@ def judge(model, mapper: ClassInfo, n, fn, kinds, allow_zero_result=False,
         specials.append("zero-children")
     if not poly and n.name == "Slice":
         specials += ["none-entry", "none-entry-changed"]
+    tuple_child = None if poly else _tuple_valued_child(model, n, kinds)
+    if tuple_child:
+        specials += ["tuple-child-1", "tuple-child-1-changed",
+                     "tuple-child-2-changed"]
     for changed in subsets + specials:
         n_cases += 1
         special = changed if isinstance(changed, str) else None
@@ -189,6 +214,16 @@ def judge(model, mapper: ClassInfo, n, fn, kinds, allow_zero_result=False,
                 if special == "none-entry-changed":
                     changed = frozenset([(f0, 0), (f0, 2)])
             changed_toks = {id(_slot(fields, f, s)) for f, s in changed}
+            if special and special.startswith("tuple-child"):
+                # a child field that holds a tuple of children (a
+                # multi-index): the traversal maps it elementwise and the
+                # rebuilt node holds a tuple of the same length
+                ln = 2 if "-2" in special else 1
+                fields[tuple_child] = tuple(
+                    Tok(f"{tuple_child}[{i}]") for i in range(ln))
+                if special.endswith("changed"):
+                    changed_toks = {id(fields[tuple_child][-1])}
+                    changed = frozenset([(tuple_child, ln - 1)])
         expr = Obj(n.name, fields)
         calls = []
         extras, kw = (("A1",), {"k": "K1"}) if takes_extras else ((), {})
@@ -196,8 +231,12 @@ def judge(model, mapper: ClassInfo, n, fn, kinds, allow_zero_result=False,
         def rec(it, node, a, k, changed_toks=changed_toks, calls=calls):
             if not a:
                 raise AnalysisError("rec() without an argument")
-            calls.append((a[0], tuple(a[1:]), dict(k)))
             t = a[0]
+            if isinstance(t, tuple):
+                # a tuple handed to the traversal is mapped elementwise
+                out = tuple(rec(it, node, [x] + list(a[1:]), k) for x in t)
+                return t if all(x is y for x, y in zip(out, t)) else out
+            calls.append((a[0], tuple(a[1:]), dict(k)))
             if isinstance(t, Tok) and id(t) in changed_toks:
                 return Tok(f"rec({t.name})", origin=t)
             return t
@@ -303,6 +342,10 @@ def judge(model, mapper: ClassInfo, n, fn, kinds, allow_zero_result=False,
             if special == "zero-children" else
             "an omitted (None) entry, " + (
                 "none changed" if not changed else "the others changed")
+            if special and special.startswith("none") else
+            f"a {'two' if '-2' in special else 'one'}-element tuple as "
+            f"'{tuple_child}', " + ("none changed" if not changed else
+                                    "the last element changed")
             if special else
             "no child changed" if not changed else
             "every child changed" if len(changed) == len(positions) > 1 else
@@ -326,7 +369,10 @@ def judge(model, mapper: ClassInfo, n, fn, kinds, allow_zero_result=False,
             wit.append(f"{label}: the omitted entry (None) is handed to rec")
             continue
         for f, s in (positions if not special else
-                     [(f0, 0), (f0, 2)] if special.startswith("none") else []):
+                     [(f0, 0), (f0, 2)] if special.startswith("none") else
+                     [(tuple_child, i)
+                      for i in range(len(fields[tuple_child]))]
+                     if special.startswith("tuple-child") else []):
             t = _pslot(f, s) if poly else _slot(fields, f, s)
             cnt = sum(1 for x in seen if x is t)
             if cnt != 1:
@@ -378,7 +424,10 @@ def judge(model, mapper: ClassInfo, n, fn, kinds, allow_zero_result=False,
                     return isinstance(g, Tok) and g.origin is t
                 return g is t
             ok = True
-            if k == CHILD:
+            if k == CHILD and isinstance(want, tuple):
+                ok = isinstance(got, tuple) and len(got) == len(want) \
+                    and all(same(g, t) for g, t in zip(got, want))
+            elif k == CHILD:
                 ok = same(got, want)
             elif k == CHILD_TUPLE:
                 ok = isinstance(got, (tuple, list)) and len(got) == len(want) \
